@@ -149,6 +149,26 @@ theorem no_hidden_execution_deep (fuel : Nat) (s cwd : String) (r : Bool) (c : N
       cases he
       exact ih f hallow
 
+/-! ### raw text whose quoting the scan cannot know -/
+
+/-- when the body of a substitution found in raw text contains a single quote, the body is scanned as raw text too:
+    whatever it seems to quote is among the items that are re-analysed (`${x:+a '$(A='$(cmd)' b)'}` runs `cmd`) -/
+theorem scan_rescans_quoted_body (ps : Bool) (n : Nat) (t inner rest : List Char) (rel : Bool)
+    (hf : findEnd (t.length + 1) t 1 true none [] = .found inner rest rel) (hq : inner.contains '\'' = true)
+    (it : ScanItem) (hit : it ∈ scanAux ps n inner) :
+    it ∈ scanAux ps (n + 1) ('$' :: '(' :: t) := by
+  simp only [scanAux, hf, hq, decide_true, Bool.true_or, ↓reduceIte, List.mem_cons, List.mem_append]
+  exact Or.inl hit
+
+example : ScanItem.sub "nope" true ∈ scanItems true "a '$(A='$(nope)' 2ok -l 'a;b')' b" := by decide +kernel
+
+/-- the subscript of an array assignment is taken up to the *last* `]=` of the word: brackets inside it do not cut it -/
+example : assignSubscript "a['$(while b[$(wc -l)]=v; do rm x; done)']=1" = some "'$(while b[$(wc -l)]=v; do rm x; done)'" := by
+  decide +kernel
+example : assignSubscript "a[1]='$(x)'" = some "1" := by decide +kernel
+example : ScanItem.sub "while b[$(wc -l)]=v; do rm x; done" true ∈ scanItems false "'$(while b[$(wc -l)]=v; do rm x; done)'" := by
+  decide +kernel
+
 /-! ### table obligations (re-derived from the source on every run) -/
 
 /-- kinds that are not commands: sub-syntax the walk handles inside words, redirections, tests … -/
